@@ -134,7 +134,7 @@ impl Scenario for Retry {
         "one (policy, outcome sequence) execution of RetryPolicy::execute under the virtual clock"
     }
     fn rule(&self) -> &'static str {
-        "Run i takes policy #(i mod 3000) of the full grid max_attempts 0..5 x initial_backoff {0,1ms,100ms,10s,1h} x max_backoff {0,1ms,100ms,10s,1h} x multiplier {0,0.5,1,2,10,1e300,NaN,-1,-0.0,inf} x jitter on/off (every second cycle the policy is built through RetryPolicy::from_env from environment strings) and executes, on the real RetryPolicy::execute under tokio's paused clock, ALL outcome sequences up to length 3 plus a seeded sample of longer ones (up to max_attempts+2) over {Ok, Network, Timeout, 503, ServiceUnavailable, 429, RateLimited(None|0|1ms|7s), Parse, 404}. The scripted closure records tokio::time::Instant::now() at every invocation, so every gap is measured exactly; jitter is drawn from the seeded entropy seam. One run in six additionally drives the real CdnClient::download_with_retry (default policy) over the simulated HTTP transport (scen/cdn.rs: per-request behaviour queues over {ok, 5xx x8, 429 with no / 0 / 1 / 7 / unparsable Retry-After, 400/403/404/410, refused, reset, client time-out, body reset, body stall}); there the number of REQUESTS, the waits between the failure of one request and the start of the next (from the simulated host's log, on tokio's clock), the stop at the first 200 / first definitive status, and the error returned are judged by the same rules. evaluations = executions; non-trivial = the closure was invoked >= 2 times (>= 1 injected failure was retried); distinct = hash of (policy, sequence, measured gaps)."
+        "Run i takes policy #(i mod 3000) of the full grid max_attempts 0..5 x initial_backoff {0,1ms,100ms,10s,1h} x max_backoff {0,1ms,100ms,10s,1h} x multiplier {0,0.5,1,2,10,1e300,NaN,-1,-0.0,inf} x jitter on/off (every second cycle the policy is built through RetryPolicy::from_env from environment strings; one run in eight from RAW strings - huge, negative, fractional, garbage, padded, unset - and a third of those with a retry budget of 255 ... 70000, where a few sequences run to the end of the budget and the exact number of invocations is judged) and executes, on the real RetryPolicy::execute under tokio's paused clock, ALL outcome sequences up to length 3 plus a seeded sample of longer ones (up to max_attempts+2) over {Ok, Network, Timeout, 503, ServiceUnavailable, 429, RateLimited(None|0|1ms|7s), Parse, 404}. The scripted closure records tokio::time::Instant::now() at every invocation, so every gap is measured exactly; jitter is drawn from the seeded entropy seam. One run in six additionally drives the real CdnClient::download_with_retry (default policy) over the simulated HTTP transport (scen/cdn.rs: per-request behaviour queues over {ok, 5xx x8, 429 with no / 0 / 1 / 7 / unparsable Retry-After, 400/403/404/410, refused, reset, client time-out, body reset, body stall}); there the number of REQUESTS, the waits between the failure of one request and the start of the next (from the simulated host's log, on tokio's clock), the stop at the first 200 / first definitive status, and the error returned are judged by the same rules. evaluations = executions; non-trivial = the closure was invoked >= 2 times (>= 1 injected failure was retried); distinct = hash of (policy, sequence, measured gaps)."
     }
     fn assumptions(&self) -> Vec<&'static str> {
         vec![
@@ -157,7 +157,7 @@ impl Scenario for Retry {
     fn runs(&self, tier: Tier) -> u64 {
         match tier {
             Tier::Quick => 6_000,
-            Tier::Thorough => 120_000,
+            Tier::Thorough => 600_000,
         }
     }
 
@@ -223,8 +223,14 @@ impl Scenario for Retry {
                     _ => good,
                 }
             };
+            // a retry budget far above the grid's 0..5 (the statement bounds the attempts for EVERY configured
+            // number of retries): around the widths of small counters
+            let many = if rng.chance(1, 3) { Some((*rng.pick(&["255", "256", "257", "300", "1000", "65535", "65536", "70000"])).to_string()) } else { None };
             Some(vec![
-                pick(rng, max_attempts.to_string()),
+                match many {
+                    Some(m) => m,
+                    None => pick(rng, max_attempts.to_string()),
+                },
                 pick(rng, initial_ms.to_string()),
                 pick(rng, (max_ms / 1000).to_string()),
                 match rng.below(8) {
@@ -361,7 +367,20 @@ async fn run(case: &Case, ctx: &mut Ctx) -> Option<Violation> {
     let mut retried_any = false;
     let t_start = tokio::time::Instant::now();
 
+    // a policy with a large retry budget runs a handful of sequences only (each costs up to max_attempts
+    // invocations): four that end within three attempts and six that keep failing
+    let large = policy.max_attempts > 50;
+    let (mut short_done, mut long_done) = (0usize, 0usize);
     for seq in &case.seqs {
+        if large {
+            let ends_early = seq.iter().take(3).any(|o| !retryable(*o));
+            let slot = if ends_early { &mut short_done } else { &mut long_done };
+            if *slot >= if ends_early { 4 } else { 6 } {
+                continue;
+            }
+            *slot += 1;
+            ctx.count("sequences_under_a_large_retry_budget");
+        }
         ctx.count("evaluations");
         let calls: Arc<Mutex<Vec<tokio::time::Instant>>> = Arc::new(Mutex::new(Vec::new()));
         let c2 = calls.clone();
@@ -371,7 +390,7 @@ async fn run(case: &Case, ctx: &mut Ctx) -> Option<Violation> {
         const YEAR_MS: u64 = 365 * 24 * 3600 * 1000;
         let max_hint = seq.iter().filter_map(|o| hint_of(*o)).map(|d| (d.as_millis().min(u128::from(40 * YEAR_MS))) as u64).max().unwrap_or(0);
         let per = ((max_b.as_millis().min(u128::from(40 * YEAR_MS)) as u64).max(max_hint) as f64 * 1.3) as u64 + 2;
-        let budget = Duration::from_millis((u64::from(policy.max_attempts.min(1000)) + 1).saturating_mul(per).saturating_add(1000));
+        let budget = Duration::from_millis((u64::from(policy.max_attempts) + 1).saturating_mul(per).saturating_add(1000));
         // waits beyond a year (absurd hint or absurd max_backoff): tokio's PAUSED clock cannot jump more than
         // its timer wheel spans (2^36 ms, about 2.2 years) in one step, so such a call is cut off after 1.9
         // virtual years, judged for panics and bounds only, and ends the run (the runtime is not reused)
@@ -522,23 +541,19 @@ async fn run(case: &Case, ctx: &mut Ctx) -> Option<Violation> {
         if m == 0 {
             viol!("never_invoked", "", "execute returned without invoking the operation".to_string());
         }
-        // expected: stop at first Ok / first definitive error / after max_attempts retries
-        let mut exp_m = 0usize;
-        let mut exp_last = 1u8;
-        for i in 0..=policy.max_attempts as usize {
-            let o = seq.get(i).copied().unwrap_or(1);
-            exp_m = i + 1;
-            exp_last = o;
-            if !retryable(o) {
-                break;
-            }
-            if i >= seq.len() + 8 {
-                // a policy with a huge max_attempts: the script is over, every further attempt fails the same way
+        // expected: stop at first Ok / first definitive error / after max_attempts retries (past the end of the
+        // script every attempt fails with the plain retryable error)
+        let mut exp_m = (policy.max_attempts as usize).saturating_add(1);
+        let mut exp_last = seq.get(policy.max_attempts as usize).copied().unwrap_or(1);
+        for (i, o) in seq.iter().enumerate().take(exp_m) {
+            if !retryable(*o) {
+                exp_m = i + 1;
+                exp_last = *o;
                 break;
             }
         }
-        let open_ended = policy.max_attempts as usize >= seq.len() + 8 && seq.iter().all(|o| retryable(*o));
-        if m != exp_m && !(open_ended && m >= exp_m) {
+        let open_ended = false;
+        if m != exp_m {
             let class_extra = if m < exp_m { ",stopped_early" } else { ",continued_after_terminal" };
             viol!("wrong_attempt_count", class_extra, format!("the operation was invoked {m} times; it must stop at the first success or definitive error, or after max_attempts retries: expected {exp_m}"));
         }
